@@ -502,6 +502,15 @@ def h_two_flushers(ctx):
     return obs
 
 
+def h_reconnect(ctx, n):
+    """'also after a reconnect': the real network layer and asyncore dispatcher over a socket double; after any failure of a connection or of
+    a connect attempt (refused at once, failing later, handler raising, peer closing) a later connect request opens a new connection, and
+    the failure was reported (exception to the caller or a down announcement)"""
+    from checks import c16
+    obs = c16.h_network(ctx, n)
+    return [(l, o) for l, o in obs if "opens a new socket" in l or "reported to the caller" in l or "no exception" in l or "announced down" in l or "connected flag" in l]
+
+
 def finding_key(case, label, values, where):
     kind = case[case.index("[") + 1:case.index(",")] if "," in case else case
     if "lock" not in label and "block" not in label:
@@ -516,4 +525,5 @@ def finding_key(case, label, values, where):
 def cases(tier):
     n_ops = 3 if tier == "quick" else 5
     return [dict(name="fault[%s,ops=%d]" % (k, n_ops), fn=h_fault, args=(k, n_ops), keep_samples=12) for k in DOWN_FAULTS + UP_FAULTS] + \
-           [dict(name="two-flushers[handshake worker + network thread, one pre-emption]", fn=h_two_flushers, keep_samples=40)]
+           [dict(name="two-flushers[handshake worker + network thread, one pre-emption]", fn=h_two_flushers, keep_samples=40),
+            dict(name="reconnect[real network layer and dispatcher,len<=%d]" % (4 if tier == "quick" else 6), fn=h_reconnect, args=(4 if tier == "quick" else 6,), max_paths=400000, timeout_s=900)]
